@@ -3,7 +3,7 @@ PROP = {'kani_groups': ['hk_batcher'],
  'technique': 'bounded model checking (Kani/CBMC) of one-step inductive harnesses over the real emit_batcher code: '
               'when_flushed from an arbitrary state, the Watchers kernel, and one full receiver-loop iteration '
               '(de-asynced exec) from an arbitrary state; composition over histories is a written induction',
- 'functions': ['Sender::when_flushed, Watchers::{new, push_on_flush, push_on_take, notify_on_flush, notify_on_take}, '
+ 'functions': ['Sender::when_flushed, Sender::send (overflow keeps the watchers parked on the pending batch), Watchers::{new, push_on_flush, push_on_take, notify_on_flush, notify_on_take}, '
                'Batch::new/default',
                'Receiver::exec (one loop iteration: swap under the lock, take-notify, attempts and retry waits, '
                'flush-notify)'],
